@@ -26,7 +26,7 @@ let rec show b = function
 let tokerr = function OutOfFuel -> "ERR fuel" | AssertFail -> "ERR AssertionError" | IndexError -> "ERR IndexError" | AttrError -> "ERR AttributeError" | Guard -> "ERR Guard"
 let parseerr = function
   | IncompleteInput -> "ERR incomplete" | TooMuchInput -> "ERR toomuch" | PFuel -> "ERR fuel"
-  | PAttr -> "ERR AttributeError" | PIndex -> "ERR IndexError"
+  | PAttr -> "ERR AttributeError" | PIndex -> "ERR IndexError" | PGuard -> "ERR Guard"
   | SyntaxErr t -> Printf.sprintf "SYNTAXERR %s %d %d [%s] [%s]" (tyname t.ty) (int_of_n t.tline) (int_of_n t.tcol) (pstr t.ts) (pstr t.tpre)
 
 let show_tokens toks =
